@@ -66,6 +66,8 @@ pub fn build(q: &Q) -> QosPolicies {
         b = b.ownership(match q.ow {
             0 => Ownership::Shared,
             3 => Ownership::Exclusive { strength: 0 },
+            // 4: only the strength reaches the other side (run_one takes the kind out of the announcement)
+            4 => Ownership::Exclusive { strength: 5 },
             s => Ownership::Exclusive { strength: s },
         });
     }
@@ -97,20 +99,24 @@ const RG: [u8; 16] = [0xE2, 0xE2, 0xE2, 0xE2, 0xE2, 0xE2, 0xE2, 0xE2, 0xE2, 0xE2
 pub fn run_one(run_no: usize, c: &Case, out: &mut Vec<Value>) -> Vec<Vec<u8>> {
     let off = build(&c.off);
     let req = build(&c.req);
-    // 1. the public function
-    let verdict = match off.compliance_failure_wrt(&req) {
-        None => "None".to_string(),
-        Some(p) => format!("{p:?}"),
-    };
-    // each side learns the other's QoS from a serialised SEDP announcement (alternating byte order)
+    // each side learns the other's QoS from a serialised SEDP announcement (alternating byte order); ownership value 4: the
+    // announcement carries PID_OWNERSHIP_STRENGTH but no PID_OWNERSHIP (0x001f)
     let le = run_no % 2 == 0;
-    let off_seen = rustdds::verif::wire_rig::qos_over_the_wire(&off, false, le);
-    let req_seen = rustdds::verif::wire_rig::qos_over_the_wire(&req, true, le);
+    let drop_kind = |ow: i32| -> Vec<u16> { if ow == 4 { vec![0x001f] } else { vec![] } };
+    let off_seen = rustdds::verif::wire_rig::qos_over_the_wire_dropping(&off, false, le, &drop_kind(c.off.ow));
+    let req_seen = rustdds::verif::wire_rig::qos_over_the_wire_dropping(&req, true, le, &drop_kind(c.req.ow));
     let wire_ok = off_seen.is_ok() && req_seen.is_ok();
     let off_seen = off_seen.unwrap_or_else(|_| off.clone());
     let req_seen = req_seen.unwrap_or_else(|_| req.clone());
+    // 1. the public function (on what each side has of the other where the announcement differs from the local object)
+    let off_v = if c.off.ow == 4 { &off_seen } else { &off };
+    let req_v = if c.req.ow == 4 { &req_seen } else { &req };
+    let verdict = match off_v.compliance_failure_wrt(req_v) {
+        None => "None".to_string(),
+        Some(p) => format!("{p:?}"),
+    };
     // 2. reader side: a reader with the requested QoS learns of a writer with the offered QoS
-    let mut rr = ReaderRig::new_with_qos(&[req.clone()]);
+    let mut rr = ReaderRig::new_with_qos(&[req_v.clone()]);
     rr.match_writer_with_qos(0, WG, &off_seen, 22_001);
     let r_matched = rr.matched_writers(0).contains(&WG);
     let mut r_status = vec![];
@@ -122,7 +128,7 @@ pub fn run_one(run_no: usize, c: &Case, out: &mut Vec<Value>) -> Vec<Vec<u8>> {
         });
     }
     // 3. writer side: a writer with the offered QoS learns of a reader with the requested QoS
-    let mut wr = WriterRig::new_with_qos(&off, None, WG);
+    let mut wr = WriterRig::new_with_qos(off_v, None, WG);
     wr.match_reader_with_qos(RG, &req_seen, 22_002);
     let w_matched = wr.matched_readers().contains(&RG);
     let w_status: Vec<String> = wr.drain_status().into_iter().map(|(k, _, _, _)| if k == "PublicationMatched" { "Matched".to_string() } else { k.replace("OfferedIncompatibleQos:", "") }).collect();
@@ -141,7 +147,7 @@ fn rq(rng: &mut StdRng) -> Q {
         po: if ps < 0 { 0 } else { rng.gen_range(0..2) },
         dl: rng.gen_range(-1..4),
         lb: rng.gen_range(-1..4),
-        ow: rng.gen_range(-1..4),
+        ow: rng.gen_range(-1..5),
         lk,
         ll: if lk < 0 { -1 } else { rng.gen_range(0..4) },
         r: rng.gen_range(-1..4),
